@@ -218,6 +218,31 @@ class OwnProfile(Profile):
             return gen_own.gen_setattr(w, r)
         if fam == "attr_index":
             return gen_own.gen_setattr(w, r, kinds=("bi", "cb", "db"), attrs=INDEX_ATTRS)
+        if fam == "attr_roundtrip":
+            # A -> B (-> lookups may fall here) -> A on one indexed attribute, or add + remove
+            # of one element: the same index key is added and discarded again between two lookups
+            m = w.m
+            if r.random() < 0.6:
+                op = gen_own.gen_setattr(w, r, kinds=("bi", "cb", "db"), attrs=INDEX_ATTRS)
+                if op is None:
+                    return None
+                cur = m.nodes[op["label"]].a[op["attr"]]
+                if cur == op["value"]:
+                    return None
+                back = dict(op, value=cur)
+                if m.nodes[op["label"]].kind == "bi" and op["attr"] == "size" and cur < op["value"]:
+                    pass
+                w.queue.extend([back] if r.random() < 0.6 else [dict(op, value=cur if r.random() < 0.5 else op["value"]), back])
+                return op
+            kids = [l for l, n in m.nodes.items() if n.kind in ("bi", "cb", "db") and n.parent is not None]
+            c = gen_own.pick(r, kids)
+            if c is None:
+                return None
+            p0 = m.nodes[c].parent
+            others = [l for l in m.by_kind(m.nodes[p0].kind) if l != p0]
+            mid = gen_own.pick(r, others) if others and r.random() < 0.5 else None
+            w.queue.append({"op": "setparent", "child": c, "parent": p0})
+            return {"op": "setparent", "child": c, "parent": mid}
         if fam == "attr_sym":
             return gen_own.gen_setattr(w, r, kinds=("sym",))
         if fam == "se":
@@ -398,6 +423,7 @@ INDEX_BASE = {
     "setop": 3.0,
     "listop": 0.7,
     "attr_index": 6.0,
+    "attr_roundtrip": 1.5,
     "setattr": 0.5,
     "se": 2.0,
     "persist": 0.6,
